@@ -61,7 +61,11 @@ type Opts struct {
 	MaxTx           int // transactions per entry: 0..MaxTx (default 3)
 	EmptyBlockOneIn int // 1/k blocks have a single entry without transactions (0 = never)
 	ExactTx         int // if >0: total number of transactions is forced to exactly this (spread over blocks)
-	MultiFrameOneIn int // 1/k transactions get multi-frame data and metadata (0 = never)
+	MultiFrameOneIn int // 1/k transactions get multi-frame metadata (0 = never)
+	// SplitTxData: multi-frame transactions also get their *transaction* payload split (the server
+	// paths support it; the block-by-block indexers (gsfa, split-car) only accept single-frame tx data,
+	// as all real writers produce)
+	SplitTxData bool
 	MaxFrames       int // max frames per multi-frame payload (default 8)
 	FanOut          int // next-link fan-out (0 = random 1..10)
 	BigOneIn        int // 1/k transactions carry a big instruction payload => section > 16 KiB (3-byte varint)
@@ -489,7 +493,9 @@ func Generate(path string, o Opts) (*Model, error) {
 				// payload frames
 				kd, km := 1, 1
 				if oneIn(rng, o.MultiFrameOneIn) {
-					kd = 1 + rng.Intn(o.MaxFrames)
+					if o.SplitTxData {
+						kd = 1 + rng.Intn(o.MaxFrames)
+					}
 					km = 1 + rng.Intn(o.MaxFrames)
 				}
 				fan := o.FanOut
